@@ -1,8 +1,11 @@
 (* InmemOld.v — history: handlers/inmem/inmem.go BEFORE /verif/fixes/C17-inmem.patch, and the
    three statements of C17 it violates, each with a concrete witness evaluated by vm_compute.
    Every witness was confirmed on the real code by the harness (sub-command c17; the same
-   inputs are the corpus cases "corpus/add-existing", "corpus/delete-missing" and the
-   concurrent tier, see harness/cmd/rendharness/c17.go).
+   inputs are the corpus cases "corpus/add-existing", "corpus/delete-missing",
+   "corpus/expired-add-delete-get" and the concurrent tier, see harness/cmd/rendharness/c17.go).
+   checks/Check17Old.v evaluates the harness's observations of the UNFIXED code against this
+   model: on 2026-09-23 (seed 1, quick) all 412 cases agreed with it exactly (368 of them with
+   the reference-map oracle failing, i.e. code 3) except the two aliasing cases below.
 
    Differences from Inmem.v (everything else is shared):
    - Add:    `if ok || e.isExpired() { delete(h.data, key); return ErrKeyExists }`
